@@ -147,6 +147,14 @@ def integer_group(ctx, world, ev):
         ok = vals == [mk_app("be2int", (b,))]
         ctx.ob("K3-decoder", "%s bytes_to_element" % gname, ok, "big-endian integer (inverse of to_bytes)" if ok else
                "element decoder is not the big-endian integer of the input")
+        i_ = mk_app("be2int", (b,))
+        allowed = set()
+        for op, args in (("Eq", (mk_app("len", (b,)), wf)), ("NotEq", (mk_app("len", (b,)), wf)), ("LtE", (i_, Const(0))), ("Lt", (i_, Const(0))),
+                         ("Gt", (i_, Const(0))), ("GtE", (i_, Const(1))), ("Lt", (i_, Const(1))), ("GtE", (i_, p)), ("Gt", (i_, p)), ("Lt", (i_, p)),
+                         ("LtE", (i_, p)), ("Eq", (mk_app("pow", (i_, q, p)), Const(1))), ("NotEq", (mk_app("pow", (i_, q, p)), Const(1)))):
+            allowed.add((mk_app(op, args), True))
+            allowed.add((mk_app(op, args), False))
+        decoder_total(ctx, "K3-total", "%s bytes_to_element" % gname, o, b, allowed)
         ok = has_eq(conds_of(o), mk_app("len", (b,)), wf)
         ctx.ob("K3-width", "%s bytes_to_element" % gname, ok, "decoder accepts exactly element_size_bytes bytes (C05 D1)" if ok else
                "decoder does not enforce the element width: not the inverse of the encoder")
@@ -271,6 +279,28 @@ def ed25519(ctx, world, ev):
         ctx.ob("K5-root", "Ed25519 decode path (%s)" % ("x = Q - root" if flip else "x = root"), okr,
                "x is recovered from y by the square-root algorithm: " + whyr if okr else
                "point decompression does not recover x correctly: " + whyr, o.site)
+        extra = []
+        ycoord_ = coords[0].items[1]
+        ycoord_ = ycoord_.args[0] if is_app(ycoord_, "Mod") and ycoord_.args[1] == Const(Q) else ycoord_
+        for (t, p) in conds:
+            if not any(x_ == b for x_ in subterms(t)) or is_app(t, "isinstance"):
+                continue
+            if is_app(t, "Eq", "NotEq") and (b in t.args or any(is_app(a, "len") for a in t.args)):
+                continue                      # identity encoding / width
+            if is_app(t, "Eq", "NotEq") and any(is_app(a, "bool") for a in t.args):
+                continue                      # sign rule
+            if is_app(t, "Eq", "NotEq") and (Const(0) in t.args or Const(Q) in t.args):
+                continue                      # x == 0 / x == Q / on-curve polynomial == 0
+            if is_app(t, "Lt", "LtE", "Gt", "GtE") and ycoord_ in t.args and (Const(Q) in t.args or Const(Q - 1) in t.args):
+                continue                      # canonical range of y
+            if is_app(t, "Lt", "LtE", "Gt", "GtE") and Const(Q) in t.args and any(x_ == x0 for a in t.args for x_ in subterms(a)):
+                continue                      # canonical range of x
+            if isinstance(t, App) and t.f.startswith("fn:"):
+                continue                      # identity / torsion predicates (C05 D3, D4)
+            extra.append(show(t, maxdepth=4) + "=" + str(p))
+        ctx.ob("K5-total", "Ed25519 decode path (%s)" % ("x = Q - root" if flip else "x = root"), not extra,
+               "the accepting path carries only the width, canonical-range, sign, curve and subgroup conditions: every encoder output is accepted" if not extra else
+               "the decoder also requires %s: some valid encodings are refused" % extra, o.site)
         okl = has_eq(conds, mk_app("len", (b,)), Const(32))
         ctx.ob("K5-width", "Ed25519 decode path (%s)" % ("x = Q - root" if flip else "x = root"), okl,
                "decoder accepts exactly 32 bytes (C05 D1)" if okl else "decoder does not enforce the 32-byte width: not the inverse of the encoder", o.site)
